@@ -46,16 +46,17 @@ MAIN = "/main.html"
 class Ctx:
     """where in a file an item is printed"""
 
-    __slots__ = ("tagdepth", "depth0", "mainfile", "ctl")
+    __slots__ = ("tagdepth", "depth0", "mainfile", "ctl", "calls")
 
-    def __init__(self, tagdepth=0, depth0=True, mainfile=True, ctl=0):
+    def __init__(self, tagdepth=0, depth0=True, mainfile=True, ctl=0, calls=0):
         self.tagdepth = tagdepth  # number of enclosing tags (def/block/call) in this file
         self.depth0 = depth0  # directly in the body list of the main file
         self.mainfile = mainfile
         self.ctl = ctl  # number of enclosing control structures (% if / % for / % try) in this file
+        self.calls = calls  # number of enclosing <%call> bodies in this file
 
     def key(self):
-        return (self.tagdepth > 0, self.depth0, self.mainfile)
+        return (self.tagdepth > 0, self.depth0, self.mainfile, self.calls >= 2)
 
 
 def allowed(kind, ctx):
@@ -67,19 +68,23 @@ def allowed(kind, ctx):
         return ctx.tagdepth == 0
     if kind in ("defself", "nstag"):
         return ctx.tagdepth == 0
+    if kind == "calltag":
+        # a def declared inside a <%call> body that is itself inside another <%call> body loses its
+        # caller today (AttributeError: 'NoneType' object has no attribute 'body'): C05's business
+        return ctx.calls < 2
     return True
 
 
 def body_ctx(kind, ctx):
     if kind in ("if", "ifelse", "for", "forl", "try"):
-        return Ctx(ctx.tagdepth, False, ctx.mainfile, ctx.ctl + 1)
+        return Ctx(ctx.tagdepth, False, ctx.mainfile, ctx.ctl + 1, ctx.calls)
     if kind == "include":
         return Ctx(0, False, False)
     if kind == "ns":
         return Ctx(1, False, False)
     if kind in ("inh", "inhs"):
         return Ctx(0, False, False)
-    return Ctx(ctx.tagdepth + 1, False, ctx.mainfile, ctx.ctl)
+    return Ctx(ctx.tagdepth + 1, False, ctx.mainfile, ctx.ctl, ctx.calls + (1 if kind in ("calltag", "nstag") else 0))
 
 
 def gen_seqs(w, ctx, kinds, memo):
